@@ -7,6 +7,7 @@ package main
 import (
 	"encoding/hex"
 	"errors"
+	"flag"
 	"fmt"
 	"math"
 	"os"
@@ -166,13 +167,27 @@ func genString(r *hx.Rng, maxLen int, ascii bool) string {
 	n := r.Intn(maxLen + 1)
 	var b []byte
 	for i := 0; i < n; i++ {
-		if !ascii && r.Chance(10) {
-			b = append(b, hx.Pick(r, []string{"é", "日", "\xff", " "})...)
+		if !ascii && r.Chance(18) {
+			b = append(b, nonASCII(r)...)
 			continue
 		}
 		b = append(b, hx.Pick(r, alphabet[:10]))
 	}
 	return string(b)
+}
+
+// nonASCII: cased and caseless runes of every UTF-8 width, every Unicode white-space rune, invalid and
+// truncated sequences, and (1 in 4) a random rune below U+20000 (all case-mapped ranges are there).
+func nonASCII(r *hx.Rng) string {
+	if r.Chance(25) {
+		c := rune(0x80 + r.Intn(0x20000-0x80))
+		if c >= 0xD800 && c <= 0xDFFF {
+			c = 0x1E9E
+		}
+		return string(c)
+	}
+	return hx.Pick(r, []string{"é", "É", "ß", "İ", "ı", "\u212a", "ſ", "Σ", "σ", "ς", "\u01c5", "日", "\u00a0", "\u2003", "\u3000", "\u0085",
+		"\u1680", "\u2028", "\u205f", "\u202f", "\ufffd", "\U00010400", "\U00010428", "\xff", "\xc3", "\xe3\x80", "\xc2", "\x85", "\xa0", "\xf0\x90\x90", "\xed\xa0\x80", "\xc0\xaf"})
 }
 
 func runStrings(o *hx.Out, r *hx.Rng, n int) {
@@ -188,7 +203,12 @@ func runStrings(o *hx.Out, r *hx.Rng, n int) {
 			}
 			cs = append(cs, chk{kind: k})
 		}
-		in := genString(r, 8, unicodeSensitive)
+		_ = unicodeSensitive
+		in := genString(r, 8, r.Chance(45))
+		if r.Chance(12) {
+			// white space (ASCII and Unicode) at both ends, for Trim
+			in = hx.Pick(r, []string{" ", "\u00a0", "\u3000", "\t", "\u0085", "\u2003 "}) + in + hx.Pick(r, []string{" ", "\u00a0", "\u3000", "\n", "\u2029", " \u1680"})
+		}
 		if r.Chance(25) {
 			in = hx.Pick(r, []string{"abz", "az", "a\nz", "abab", "aba", "abc", "a1z", "", "ab", "zebra"})
 		}
@@ -700,7 +720,29 @@ func runBools(o *hx.Out, r *hx.Rng) {
 }
 
 func main() {
+	genMethods := flag.String("gen-methods", "", "write Gen/PrimMethods.lean here and exit")
+	genCase := flag.String("gen-casetable", "", "write Gen/CaseTable.lean here and exit")
+	repoRoot := flag.String("repo", "/repo", "library source tree (for -gen-methods)")
 	c := hx.ParseFlags()
+	if *genMethods != "" || *genCase != "" {
+		if *genMethods != "" {
+			src, err := genPrimMethods(*repoRoot)
+			if err == nil {
+				err = writeIfChanged(*genMethods, src)
+			}
+			if err != nil {
+				fmt.Fprintln(os.Stderr, "gen-methods:", err)
+				os.Exit(4)
+			}
+		}
+		if *genCase != "" {
+			if err := writeIfChanged(*genCase, genCaseTable()); err != nil {
+				fmt.Fprintln(os.Stderr, "gen-casetable:", err)
+				os.Exit(4)
+			}
+		}
+		return
+	}
 	o, err := hx.NewOut(c.OutDir)
 	if err != nil {
 		fmt.Fprintln(os.Stderr, err)
